@@ -267,6 +267,191 @@ def run_case(item):
 
 
 # ----------------------------------------------------------------------------
+# alias runs: the prefix shares objects with the arguments
+# ----------------------------------------------------------------------------
+
+def spec_value(spec):
+    """what a spec denotes, computed from the spec alone (never from the objects)"""
+    k = spec[0]
+    if k in ("int", "sint"):
+        return spec[1]
+    if k == "rat":
+        return {"q": [spec[1], spec[2]]}
+    if k == "str":
+        return spec[1]
+    return [spec_value(x) for x in spec[1]]
+
+
+def denote(x, budget=None):
+    """like canon, but a lazy list denotes the same thing as the eager list of its items"""
+    from vyxal.LazyList import LazyList
+    if budget is None:
+        budget = [MAXITEMS * 6]
+    if isinstance(x, (list, tuple, LazyList)):
+        out = []
+        for y in (itertools.islice(iter(x), MAXITEMS) if isinstance(x, LazyList) else x):
+            budget[0] -= 1
+            if budget[0] < 0:
+                out.append("...")
+                break
+            out.append(denote(y, budget))
+        return out
+    return canon(x)
+
+
+def run_alias(item):
+    """exec `code` on sentinel + aliases of the list arguments + args.  For every list /
+    lazy-list argument the prefix holds (a) the very same object (as `¥` pushes the
+    register), (b) deep_copy(arg) made before the call and not forced (as `:` pushes),
+    (c) a list holding the argument object as an item.  Afterwards the prefix entries
+    must be the same objects and denote what the argument specs said before the call."""
+    code, argspec = item
+    ns = namespace()
+    with contextlib.redirect_stdout(io.StringIO()):
+        base = [build(s) for s in PREFIX_A]
+        expected = [spec_value(s) for s in PREFIX_A]
+        args = [build(s) for s in argspec]
+        what = ["sentinel"] * len(base)
+        prefix = list(base)
+        for i, sp in enumerate(argspec):
+            if sp[0] in ("list", "lazy"):
+                v = spec_value(sp)
+                prefix += [args[i], ns["deep_copy"](args[i]), [0, args[i], 1]]
+                expected += [v, v, [0, v, 1]]
+                what += [f"the same object as argument {i}", f"a deep_copy view of argument {i} made before the call",
+                         f"a list holding argument {i} as its middle item"]
+        stack = prefix + args
+        ctx = ns["Context"]()
+        ctx.stacks.append(stack)
+        g = dict(ns)
+        g["stack"] = stack
+        g["ctx"] = ctx
+        random.seed(12345)
+        exc = None
+        try:
+            exec(code, g)
+        except V.Timeout:
+            raise
+        except RecursionError:
+            exc = "RecursionError"
+        except BaseException as e:  # noqa: BLE001
+            exc = type(e).__name__
+        n = len(prefix)
+        viol = None
+        if g.get("stack") is not stack:
+            viol = "the name `stack` was rebound to another object"
+        elif len(stack) < n:
+            viol = f"only {len(stack)} entries left, the {n} below the arguments were not all kept"
+        else:
+            for j in range(n):
+                if stack[j] is not prefix[j]:
+                    viol = f"entry {j} ({what[j]}) was replaced by another object"
+                    break
+        if viol is None:
+            for j in range(n):
+                try:
+                    got = denote(prefix[j])
+                except V.Timeout:
+                    raise
+                except BaseException as e:  # noqa: BLE001
+                    got = "unreadable:" + type(e).__name__
+                if got != expected[j]:
+                    viol = f"entry {j} below the arguments ({what[j]}) denoted {expected[j]!r} before the call and {got!r} after it"
+                    break
+    return {"exc": exc, "viol": viol}
+
+
+ALIAS_LISTS = [
+    ("list", [("int", 3), ("int", 1), ("int", 2)]),
+    ("list", [("list", [("int", 3), ("int", 1)]), ("list", [("int", 2)]), ("list", [("int", 0), ("int", 5)])]),
+    ("lazy", [("int", 3), ("int", 1), ("int", 2)]),
+    ("list", [("str", "b"), ("str", "a"), ("str", "c")]),
+    ("lazy", [("list", [("int", 2), ("int", 1)]), ("list", [("int", 1), ("int", 0)])]),
+]
+ALIAS_FILL = [("int", 1), ("int", 2), ("str", "a"), ("int", 0), ("list", [("int", 2), ("int", 1)])]
+
+
+def alias_tuples(k, rng, extra):
+    """argument tuples with at least one list: each list kind in each position (the others
+    a scalar), every position the same kind of list, then random ones"""
+    out = []
+    for lst in ALIAS_LISTS:
+        for pos in range(k):
+            for fill in ALIAS_FILL[:2 if k > 1 else 1]:
+                out.append([lst if i == pos else fill for i in range(k)])
+        if k > 1:
+            out.append([lst] * k)
+            out.append([lst if i == 0 else ALIAS_FILL[4] for i in range(k)])
+    for _ in range(extra):
+        t = [gen_value(rng) for _ in range(k)]
+        if not any(x[0] in ("list", "lazy") for x in t):
+            t[rng.randrange(k)] = rng.choice(ALIAS_LISTS)
+        out.append(t)
+    seen, res = set(), []
+    for t in out:
+        c = V.canon(t)
+        if c not in seen:
+            seen.add(c)
+            res.append(t)
+    return res
+
+
+def alias_sweep(env, E):
+    from vyxal.transpile import transpile
+    t0 = time.time()
+    extra = env.budget(4, 40)
+    cases = []
+    for key, (text, k) in E.elements.items():
+        if key in SKIP or k == 0:
+            continue
+        for args in alias_tuples(k, env.rng, extra):
+            cases.append({"kind": "element", "key": key, "code": text, "k": k, "args": args, "listed": key in WHOLE_STACK_ELEMENTS})
+    # a handful of modifier applications: the operand runs inside a lambda on the same objects
+    ops = [o for o in ("s", "∆ṁ", "Ṙ", "J", "+", "Ṫ", "Ȧ", "U", "f", "ṡ", "G", "∑", "ÞS", "µ") if o in E.elements]
+    if env.thorough:
+        ops += [o for o in E.elements if o not in ops and o not in SKIP and E.elements[o][1] >= 1]
+    for m in E.modifiers:
+        if m in WHOLE_STACK_MODIFIERS:
+            continue
+        for a in ops:
+            b = "N" if m in ("₌", "₍") else ""
+            if a in WHOLE_STACK_ELEMENTS:
+                continue
+            try:
+                code = transpile(m + a + b)
+            except Exception:  # noqa: BLE001
+                continue
+            k = mod_consumed(m, E.elements[a][1], E.elements[b][1] if b else 0)
+            if k == 0:
+                continue
+            for args in alias_tuples(k, env.rng, 0)[: env.budget(6, 12)]:
+                cases.append({"kind": "modifier", "key": m, "code": code, "k": k, "args": args, "listed": False, "program": m + a + b})
+    res = hard_pmap(run_alias, [(c["code"], c["args"]) for c in cases], soft=4.0, hard=25.0, procs=min(V.NPROC, 6))
+    stats = collections.Counter()
+    keys = []
+    for c, (status, val) in zip(cases, res):
+        stats["runs"] += 1
+        if status != "ok":
+            stats[status] += 1
+            continue
+        if val["exc"]:
+            stats["raised"] += 1
+        else:
+            stats["completed"] += 1
+            keys.append(f"alias:{c['kind']}:{c.get('program', c['key'])}:{V.canon(c['args'])}")
+        if val["viol"] and not c["listed"]:
+            stats["alias_violations"] += 1
+            name = c.get("program", c["key"])
+            env.fail({"kind": c["kind"] + "-alias", "key": c["key"], "program": c.get("program"), "arity": c["k"], "args": c["args"],
+                      "prefix": "sentinel entries, then per list argument: the same object, deep_copy(arg) unforced, [0, arg, 1]"},
+                     f"{c['kind']} {name} (consumes {c['k']}): {val['viol']}" + (f" (raised {val['exc']})" if val["exc"] else ""),
+                     cls=f"C09:{c['key']}:alias")
+    env.count(len(cases), keys)
+    env.note("alias_sweep", {"cases": len(cases), "stats": dict(stats), "list_kinds": len(ALIAS_LISTS), "modifier_operands": len(ops),
+                             "seconds": round(time.time() - t0, 1)})
+
+
+# ----------------------------------------------------------------------------
 # a worker pool that survives runs the alarm cannot interrupt
 # ----------------------------------------------------------------------------
 
@@ -660,7 +845,9 @@ def run(env):
     env.rule = ("oracle: each key of vyxal.elements.elements is exec'd on sentinel prefix + argument tuple (8 fixed tuples per arity: ints, the "
                 "string 'stack', lists, lazy lists, mixed, rationals; then random tuples from the seed) and once more on a second, different "
                 "prefix; each modifier is transpiled with operand elements and exec'd likewise; 2 evaluations per case.  Non-trivial = both runs "
-                "completed without an exception (the element really ran to its end); distinct by kind:key:arguments.")
+                "completed without an exception (the element really ran to its end); distinct by kind:key:arguments.  Alias runs: every element of "
+                "arity >= 1 (and modifiers applied to a handful of elements) on argument tuples holding eager, nested and lazy lists, with the "
+                "prefix holding the same object, an unforced deep_copy view of it and a list containing it; 1 evaluation per case.")
     V.import_repo()
     namespace()
     import vyxal.elements as E
@@ -670,6 +857,7 @@ def run(env):
     minabove = sweep(env, cases, "element_sweep")
     mcases = modifier_cases(env, E)
     minabove.update(sweep(env, mcases, "modifier_sweep"))
+    alias_sweep(env, E)
     coq_ties(env, E, last, minabove)
     table_counts(env)
     gq = env.tables.get("gen_quirks") or {}
@@ -700,6 +888,7 @@ def search_without_tables(env):
     scan_stacks(env)
     sweep(env, element_cases(env, E), "element_sweep")
     sweep(env, modifier_cases(env, E), "modifier_sweep")
+    alias_sweep(env, E)
 
 
 def replay(rec):
@@ -713,7 +902,13 @@ def replay(rec):
     V.import_repo()
     namespace()
     import vyxal.elements as E
-    if inp.get("kind") == "modifier":
+    if inp.get("kind") == "element-alias" and inp["key"] in E.elements:
+        r = run_alias((E.elements[inp["key"]][0], _tup(inp["args"])))
+        print(f"element {inp['key']!r} template {E.elements[inp['key']][0]!r} args {inp['args']} with aliases of the list arguments below them:")
+        print(" ", r)
+        print("still failing" if r["viol"] else "no longer failing")
+        return 1 if r["viol"] else 0
+    if inp.get("kind") in ("modifier", "modifier-alias"):
         print("modifier cases are replayed by ./check C09 (the program text is not recorded); recorded failure:")
         print(f["what"])
         return 1
